@@ -508,6 +508,7 @@ bool Parser::parse_patch_header(Patch& patch, PatchHeaderInfo& header_info, int 
     size_t lines = 0;
     bool is_git_patch = false;
     bool should_parse_body = true;
+    bool found_first_hunk = false;
     Hunk hunk;
 
     auto start_line_number = m_line_number;
@@ -591,6 +592,7 @@ bool Parser::parse_patch_header(Patch& patch, PatchHeaderInfo& header_info, int 
                 std::swap(patch.old_file_path, patch.new_file_path);
                 std::swap(patch.old_file_time, patch.new_file_time);
                 patch.format = Format::Unified;
+                found_first_hunk = true;
                 break;
             }
 
@@ -607,6 +609,7 @@ bool Parser::parse_patch_header(Patch& patch, PatchHeaderInfo& header_info, int 
                 patch.format = Format::Normal;
                 patch.new_file_path.clear();
                 patch.old_file_path.clear();
+                found_first_hunk = true;
                 break;
             }
 
@@ -646,6 +649,7 @@ bool Parser::parse_patch_header(Patch& patch, PatchHeaderInfo& header_info, int 
                     if (!starts_with(ahead, "- ") && !starts_with(ahead, "  ") && !starts_with(ahead, "! ") && !starts_with(ahead, "\\"))
                         break;
                 }
+                found_first_hunk = true;
                 break;
             }
 
@@ -659,6 +663,8 @@ bool Parser::parse_patch_header(Patch& patch, PatchHeaderInfo& header_info, int 
 
     if (is_git_patch)
         patch.format = Format::Git;
+    else if (!found_first_hunk)
+        patch.format = Format::Unknown; // Only text which is of no use to us, even if we were told what format to expect.
 
     m_file.clear();
     m_file.seekg(header_info.patch_start);
